@@ -250,6 +250,7 @@ func checkC17(c *Ctx, r *Report) {
 		}
 	}
 	numberOrderRule(c, r)
+	dquoteRules(c, r)
 	r.Check(okStop, "R17c", c.FnName(pf), "top-level stop set", c.Pos(pf.Pos()), "stop set is \"\" exactly under IgnoreCommas, otherwise \",\"", "the top-level stop set is not chosen by Config.IgnoreCommas as documented")
 	_ = strings.TrimSpace
 }
@@ -307,4 +308,112 @@ func numberOrderRule(c *Ctx, r *Report) {
 		r.Check(ok, "R17d", c.FnName(fn), name+" before float", c.Pos(fl.Pos()), "tried on the same text with base 0 / 64 bits; the float parse is reached only when it failed",
 			"the exact integer parse "+name+" does not precede the float fallback ("+why+"): integers outside its sibling's range are read back as rounded floats")
 	}
+}
+
+// dquoteRules: the double-quote scanner (R17e) hands the scanned literal to the decoder unmodified,
+// (R17f) skips escape sequences as units — the closing-quote test is made only on a byte that is not
+// behind a backslash, and a backslash advances the scan position by two — and (R17g) decodes with
+// strconv.Unquote and, when that rejects the literal, with encoding/json on the same literal (the
+// escapes JSON has and Go has not).
+func dquoteRules(c *Ctx, r *Report) {
+	fn := c.Method("parse", "flagParser", "parseStringDQuote")
+	name := c.FnName(fn)
+	b := newNF(c)
+	b.Role(fn.Params[0], "p")
+
+	r.Rule("R17e", "strconv.Unquote receives a sub-slice of the parser input as it is (no textual preprocessing of the literal)", 1)
+	var unq *ssa.Call
+	for _, ci := range CallsIn(fn, false) {
+		if f := ci.Common().StaticCallee(); f != nil && f.String() == "strconv.Unquote" {
+			unq, _ = ci.(*ssa.Call)
+		}
+	}
+	if unq == nil {
+		r.add("R17e", name, "decoder", c.Pos(fn.Pos()), Undecided, true, "no strconv.Unquote call in parseStringDQuote")
+		return
+	}
+	lit := b.Of(unq.Call.Args[0]).String()
+	r.Check(lit == "slice(deref($p).input)", "R17e", name, "literal handed to Unquote", c.Pos(unq.Pos()), lit,
+		"the literal is rewritten before it is decoded ("+clip(lit, 160)+"): a textual replacement cannot tell an escape from an escaped backslash followed by the same character")
+
+	r.Rule("R17f", "the scan for the closing quote skips escape sequences as units: the quote test is made under 'this byte is not a backslash', and after a backslash the position advances by two", 2)
+	var bs, qt *ssa.If
+	for _, blk := range fn.Blocks {
+		ifi, ok := lastInstr(blk).(*ssa.If)
+		if !ok {
+			continue
+		}
+		bo, ok := ifi.Cond.(*ssa.BinOp)
+		if !ok || bo.Op != token.EQL {
+			continue
+		}
+		k, isK := ConstInt(bo.Y)
+		if !isK {
+			continue
+		}
+		switch k {
+		case 92:
+			bs = ifi
+		case 34:
+			qt = ifi
+		}
+	}
+	if bs == nil || qt == nil {
+		r.Bad("R17f", name, "escape units", c.Pos(fn.Pos()), "the scanner no longer tests bytes against both the backslash and the quote: it cannot tell an escaped quote from the closing one, or a string ending in an escaped backslash from an unterminated one")
+	} else {
+		under := false
+		for _, cd := range DomConds(qt.Block()) {
+			if cd.If == bs && !cd.Truth {
+				under = true
+			}
+		}
+		if qt.Block() == bs.Block() {
+			under = false
+		}
+		r.Check(under, "R17f", name, "quote test on unescaped byte", c.Pos(qt.Pos()), "the quote test is reached only when the byte is not a backslash", "the closing-quote test is not restricted to bytes that are not part of an escape sequence")
+		// after a backslash the position advances by two: some value computed under the backslash branch is position+1 and flows into the loop counter's back edge, which adds one more
+		skip := false
+		for _, blk := range fn.Blocks {
+			for _, in := range blk.Instrs {
+				phi, ok := in.(*ssa.Phi)
+				if !ok || loopOf(fn, blk) == nil {
+					continue
+				}
+				nb := newNF(c)
+				nb.Role(phi, "i")
+				for i, e := range phi.Edges {
+					if !blk.Dominates(blk.Preds[i]) {
+						continue
+					}
+					nb2 := newNF(c)
+					nb2.bind[phi] = &nf{op: "role", name: "i"}
+					f := nb2.Of(e).String()
+					if strings.Contains(f, "+(+($i, 1), 1)") || strings.Contains(f, "+($i, 2)") || (strings.Contains(f, "+($i, 1)") && strings.HasPrefix(f, "+({") && strings.HasSuffix(f, ", 1)")) {
+						skip = true
+					}
+				}
+			}
+		}
+		r.Check(skip, "R17f", name, "backslash takes the next byte", c.Pos(bs.Pos()), "on one path the scan position advances by two", "a backslash does not take the following byte with it: the scanner looks at the escaped byte again (an escaped backslash before the closing quote hides the quote)")
+	}
+
+	r.Rule("R17g", "when strconv.Unquote rejects the literal it is decoded with encoding/json on the same literal before an error is returned", 1)
+	okFallback := false
+	for _, ci := range CallsIn(fn, false) {
+		f := ci.Common().StaticCallee()
+		if f == nil || f.String() != "encoding/json.Unmarshal" {
+			continue
+		}
+		arg := b.Of(ci.Common().Args[0]).String()
+		failed := false
+		for _, cd := range DomConds(ci.(ssa.Instruction).Block()) {
+			if isNilTestOfExtract(cd, unq, 1, false) {
+				failed = true
+			}
+		}
+		if strings.Contains(arg, lit) && failed {
+			okFallback = true
+		}
+	}
+	r.Check(okFallback, "R17g", name, "JSON-only escapes", c.Pos(unq.Pos()), "json.Unmarshal on the same literal under Unquote's failure", "a literal that strconv.Unquote rejects is not given to the JSON decoder: \\/ and surrogate pairs, which are valid JSON, are syntax errors")
 }
